@@ -35,7 +35,7 @@ func VerifC04_v3_colls() {
 		if nondetBool("arr-absent") {
 			body.Arr, arrAbsent = nil, true
 		} else {
-			n := nondetChoice("arr-len", 4)
+			n := nondetChoice("arr-len", 3) + 1 // an empty array is the same JSON document as an absent one (omitempty)
 			body.Arr = make([]int, n)
 			for i := range body.Arr {
 				body.Arr[i] = nondetInt("arr-elem")
@@ -152,6 +152,46 @@ func VerifC04_v3_colls() {
 		verifAssert("accepted:inner", got.Inner != nil && got.Inner.N == *body.Inner.N)
 		verifAssert("accepted:items", len(got.Items) == len(body.Items))
 		verifAssert("accepted:qs", len(got.Qs) == len(qsRaw))
+	}
+	// ---- C14
+	parts := map[string]any{"body": body}
+	junkQs := false
+	if qsRaw != nil {
+		var qv []any
+		for _, t := range qsRaw {
+			if t == "1x" {
+				qv = append(qv, t)
+				junkQs = true
+			} else {
+				qv = append(qv, int64(1)) // any integer text: the schema only types the items
+			}
+		}
+		parts["query:qs"] = qv
+	}
+	_ = junkQs
+	specOK := verifSchemaAccepts(openapiDoc, "POST /colls", parts)
+	mapKeyRule := false
+	for k := range body.M {
+		if utf8.RuneCountInString(k) < 2 {
+			mapKeyRule = true
+		}
+	}
+	if body.Labels != nil {
+		for k := range body.Labels.Tags {
+			if !verifKeyPat.MatchString(k) {
+				mapKeyRule = true
+			}
+		}
+	}
+	switch {
+	case optionalMinLenAbsent:
+		verifAssert("openapi:schema-accepts-iff-server-accepts[optional-collection-with-min-length-absent]", specOK == ran)
+	case mapKeyRule:
+		verifAssert("openapi:schema-accepts-iff-server-accepts[map-key-validation-not-in-schema]", specOK == ran)
+	case len(body.M) > 1:
+		verifAssert("openapi:schema-accepts-iff-server-accepts[map-length-as-maxLength]", specOK == ran)
+	default:
+		verifAssert("openapi:schema-accepts-iff-server-accepts", specOK == ran)
 	}
 }
 
